@@ -112,6 +112,10 @@ def step(line):
             return show_cs(U.get_sotdma_comm_state(int(p[1])))
         if cmd == 'itdma':
             return show_cs(U.get_itdma_comm_state(int(p[1])))
+        if cmd == 'commstate_bits':
+            m = decode_bits(parse_bits(p[1]))
+            return '%s %s %d %s' % (str(m.is_sotdma).lower(), str(m.is_itdma).lower(),
+                                    m.communication_state_raw, show_cs(m.get_communication_state()))
         if cmd == 'commstate':
             m = _Radio(int(p[1]), int(p[2]))
             return '%s %s %d %s' % (str(m.is_sotdma).lower(), str(m.is_itdma).lower(),
@@ -217,11 +221,46 @@ def _emit(events, crash):
     return ' ; '.join(out) if out else '-'
 
 
+class _Decoy:
+    """A second, independent instance of the same reader class, fed the same lines in reverse order
+    in lockstep with the instance under observation.  Instances share nothing, so this changes
+    nothing - unless reassembly buffers, open groups or pending wrappers live in class-level or
+    module-level state.  What the decoy delivers or raises is ignored."""
+
+    def __init__(self, fe, tbq, lines):
+        self.src = iter(list(reversed(list(lines))))
+        self.q = ST.TagBlockQueue() if tbq else None
+        self.nq = Q.NMEAQueue(tbq=self.q) if fe == 'queue' else None
+        self.it = None
+        if fe == 'iter':
+            self.it = iter(ST.IterMessages(self.src, tbq=self.q))
+        elif fe == 'bytestream':
+            self.it = iter(ST.ByteStream(self.src, tbq=self.q))
+
+    def tick(self):
+        try:
+            if self.nq is not None:
+                l = next(self.src, None)
+                if l is not None:
+                    self.nq.put_line(l)
+                    while self.nq.get_or_none() is not None:
+                        pass
+            elif self.it is not None:
+                next(self.it, None)
+            if self.q is not None:
+                while not self.q.empty():
+                    self.q.get_nowait()
+        except Exception:  # noqa
+            pass
+
+
 def run_stream(fe, tbq, lines, indexed=True):
     counter = [0]
+    decoy = _Decoy(fe, tbq, lines)
 
     def gen():
         for l in lines:
+            decoy.tick()
             counter[0] += 1
             yield l
 
@@ -276,6 +315,13 @@ def run_unindexed(make_stream, tbq):
 
 
 def make_socket_stream(chunks, q):
+    # an earlier connection that was closed in the middle of a line (its carry-over must die with it)
+    d = ST.SocketStream.__new__(ST.SocketStream)
+    ST.Stream.__init__(d, _FakeSock([b'!AIVDM,1,1,,A,15M67FC000G?ufbE`FepT@3n00Sa,0*5C\r\n!AIVDM,1,1,,B,1decoy']), tbq=None)
+    try:
+        list(d.read())
+    except Exception:  # noqa
+        pass
     s = ST.SocketStream.__new__(ST.SocketStream)
     ST.Stream.__init__(s, _FakeSock(chunks), tbq=q)
     return s
@@ -298,9 +344,17 @@ def show_tb(tb):
 
 
 def run_tbq(lines):
+    decoy = ST.TagBlockQueue()      # an independent queue seeing the same sentences in reverse order
+    rev = list(reversed(lines))
     q = ST.TagBlockQueue()
     out = []
     for i, l in enumerate(lines):
+        try:
+            decoy.put_sentence(M.NMEASentenceFactory.produce(rev[i]))
+            while not decoy.empty():
+                decoy.get_nowait()
+        except Exception:  # noqa
+            pass
         try:
             s = M.NMEASentenceFactory.produce(l)
             q.put_sentence(s)
@@ -379,7 +433,18 @@ def show_track(t):
     return '%d@%s(%s)' % (t.mmsi, show_time(t.last_updated), attrs)
 
 
+_DECOY_MSG = None
+
+
 def run_tracker(ordered, ttl, ops):
+    # an independent tracker with its own observers, busy while the observed one runs: its tracks and
+    # events are its own
+    global _DECOY_MSG
+    if _DECOY_MSG is None:
+        _DECOY_MSG = DEC._assemble_messages(b'!AIVDM,1,1,,A,15M67FC000G?ufbE`FepT@3n00Sa,0*5C')
+    decoy = TR.AISTracker(ttl_in_seconds=None, stream_is_ordered=False)
+    for ev in TR.AISTrackEvent:
+        decoy.register_callback(ev, lambda t: None)
     tr = TR.AISTracker(ttl_in_seconds=ttl, stream_is_ordered=ordered)
     evs = []
     tr.register_callback(TR.AISTrackEvent.CREATED, lambda t: evs.append(('C', t.mmsi)))
@@ -397,7 +462,14 @@ def run_tracker(ordered, ttl, ops):
     def state():
         return '{' + ' '.join(show_track(t) for t in tr.tracks) + '}'
 
-    for op in ops:
+    for k, op in enumerate(ops):
+        try:
+            if k % 3 == 2:
+                decoy.pop_track(_DECOY_MSG.decode().mmsi)
+            else:
+                decoy.update(_DECOY_MSG, float(k))
+        except Exception:  # noqa
+            pass
         p = op.split(':')
         if p[0] == 't':
             CLOCK.t = float(p[1])
@@ -507,10 +579,13 @@ def step2(line):
     p = line.split()
     cmd = p[0]
     if cmd == 'parse':
+        _siblings([unhx(p[1])])
         return show_sentence(M.NMEASentenceFactory.produce(unhx(p[1])))
     if cmd == 'decode':
+        _siblings([unhx(x) for x in p[2:]])
         return canon_msg(pyais.decode(*[unhx(x) for x in p[2:]], error_if_checksum_invalid=(p[1] == '1')))
     if cmd == 'assemble':
+        _siblings([unhx(x) for x in p[2:]])
         return show_sentence(DEC._assemble_messages(*[unhx(x) for x in p[2:]], error_if_checksum_invalid=(p[1] == '1')))
     if cmd == 'stream':
         return run_stream(p[1], p[2] == '1', [unhx(x) for x in p[3:]])
@@ -559,6 +634,32 @@ def step2(line):
     if cmd == 'chain':
         return run_chain(p[1], [unhx(x) for x in p[3:]])
     return None
+
+
+def _siblings(lines):
+    """Decoding is a function of the sentences handed in, not of what was decoded before: first decode
+    close relatives of every AIS line (same payload with other fill-bit counts, same line with
+    another payload), so that a result memoised under an incomplete key shows up in the real call."""
+    for l in lines:
+        try:
+            head, star, chk = l.rpartition(b'*')
+            f = head.split(b',')
+            if star and len(f) >= 7 and f[-1][:1].isdigit():
+                for d in (1, 3):
+                    g = list(f)
+                    g[-1] = b'%d' % ((int(f[-1][:1]) + d) % 6)
+                    try:
+                        pyais.decode(b','.join(g) + b'*00')
+                    except Exception:  # noqa
+                        pass
+                g = list(f)
+                g[-2] = (f[-2][1:] + f[-2][:1]) if len(f[-2]) > 1 else b'0'
+                try:
+                    pyais.decode(b','.join(g) + b'*00')
+                except Exception:  # noqa
+                    pass
+        except Exception:  # noqa
+            pass
 
 
 def _twice(fn):
